@@ -47,7 +47,10 @@ Pool == <<
   V("lambda",   "func",    0, 0,  FALSE, NoDigits),
   V("native",   "func",    0, 0,  FALSE, NoDigits),
   V("input",    "input",   0, 0,  FALSE, NoDigits),
-  V("output",   "output",  0, 0,  FALSE, NoDigits) >>
+  V("output",   "output",  0, 0,  FALSE, NoDigits),
+  \* round 3: the second boolean (appended, so the indexes above keep their meaning).  With TRUE alone
+  \* `p0 or p1` never evaluated its second operand and no loop ended because of its condition.
+  V("false",    "boolean", 0, 0,  FALSE, NoDigits) >>
 
 NPool == Len(Pool)
 None == V("none", "none", 0, 0, FALSE, NoDigits)      \* an unused argument slot
@@ -75,6 +78,10 @@ Equal(a, b) == \/ a.tag = b.tag /\ a.tag \notin {"lambda", "input", "output"}
                \/ {a.tag, b.tag} = {"i0", "d0"}
 IsIndex(i) == i.k = "int"
 InBounds(v, i) == IsIndex(i) /\ ~i.big /\ -v.len <= i.iv /\ i.iv < v.len
+
+IsTrue(v) == v.tag = "true"
+IsFalse(v) == v.tag = "false"
+IsBool(v) == v.k = "boolean"
 
 C(ok) == IF ok THEN "value" ELSE "error"
 
@@ -255,6 +262,37 @@ CompoundForms == [i \in 1..5 |-> G("assign_" \o CompoundOps[i][1], 2,
                                    "def x = p0; x " \o CompoundOps[i][2] \o " p1",
                                    "bin", CompoundOps[i][1])]
 
+(* Round 3 - guards reached on a later pass.  A node that evaluates an expression once per pass (the
+   condition of a loop, of a comprehension, the next operand of `and` / `or`, the next `elif`, the next
+   element to destructure, the next spread argument) guards EVERY evaluation.  A form that feeds the pool
+   value to the first evaluation only (`while p0 do break end`) exercises the first guard and no other;
+   deleting the second as "a duplicate" went unnoticed.  In each form below the first evaluation is fed a
+   proper value and the pool value arrives at the second (or third) one; the rule is the rule of the
+   guard, whichever pass it is tested on: that is the point.                                            *)
+LaterForms ==
+  << G("while_later", 1, "def l = [TRUE, p0, FALSE]; def i = 0; while l[i] do i += 1 end", "guard_bool", ""),
+     G("while_later_continue", 1, "def l = [TRUE, p0, FALSE]; def i = 0; while l[i] do i += 1; continue end",
+       "guard_bool", ""),
+     G("while_return", 1, "(fn() do while p0 do return 1 end; 0 end)()", "guard_bool", ""),
+     G("and_third", 1, "TRUE and TRUE and p0", "guard_bool", ""),
+     G("or_third", 1, "FALSE or FALSE or p0", "guard_bool", ""),
+     G("elif_later", 1, "if FALSE then 1 elif p0 then 2 else 3", "guard_bool", ""),
+     G("lc_if_later", 1, "[v for v in [TRUE, p0] if v]", "guard_bool", ""),
+     G("sc_if_later", 1, "<<v for v in [TRUE, p0] if v>>", "guard_bool", ""),
+     G("mc_if_later", 1, "<<<v => 1 for v in [TRUE, p0] if v>>>", "guard_bool", ""),
+     G("lc_product_if_later", 1, "[a for a in [TRUE, p0] for b in [1] if a]", "guard_bool", ""),
+     G("lc_parallel_if_later", 1, "[a for a in [TRUE, p0] also for b in [1, 2] if a]", "guard_bool", ""),
+     G("sc_product_if_later", 1, "<<a for a in [TRUE, p0] for b in [1] if a>>", "guard_bool", ""),
+     G("sc_parallel_if_later", 1, "<<a for a in [TRUE, p0] also for b in [1, 2] if a>>", "guard_bool", ""),
+     G("for_destr_later", 1, "for [a, b] in [[1, 2], p0] do a end", "guard_coll", ""),
+     G("spread_list_later", 1, "[...[1], ...p0]", "spread_list", ""),
+     G("spread_call_later", 1, "(fn(a...) a...)(...[1], ...p0)", "spread_call", ""),
+     F("spread_set", 1, "<<...p0>>"),              \* a set literal takes `...x` as the value x
+     F("assign_undefined", 1, "zz = p0"),
+     F("assign_destr_undefined", 1, "[zz, b] = p0"),
+     F("require_variable", 1, "def m = p0; require m"),
+     F("require_expression", 1, "require [p0][0]") >>
+
 Forms ==
   << F("neg", 1, "-p0"), F("pos", 1, "+p0"), F("not", 1, "not p0") >>
   \o IsForms \o IsNotForms \o
@@ -266,6 +304,10 @@ Forms ==
   << F("for_destr", 1, "for [a, b] in p0 do a end"),
      F("for_destr_entries", 1, "for [a, b] in entries p0 do a end"),
      F("for_reuse", 1, "for v in p0 do for v in p0 do v end end"),
+     \* round 3: the ways a body leaves a pass of the loop
+     F("for_continue", 1, "for v in p0 do continue end"),
+     F("for_break", 1, "for v in p0 do break end"),
+     F("for_return", 1, "(fn() do for v in p0 do return v end; 0 end)()"),
      \* round 2: loops whose body changes the collection they run over
      F("for_put", 1, "for v in p0 do p0['zz'] = 1 end"),
      F("for_keys_put", 1, "for k in keys p0 do p0[k + 'x'] = 1 end"),
@@ -297,8 +339,14 @@ Forms ==
      F("fmt_hex", 1, "s('{p0#x}')"),
      F("fmt_wide", 1, "s('{p0#4000000}')"),        \* padding is linear in the width
      F("fmt_bad", 1, "s('{p0#q}')") >>
-  \o BinForms \o CompoundForms \o
-  << F("numerical_min", 2, "p0 is numerical min_len p1"),
+  \o LaterForms \o BinForms \o CompoundForms \o
+  << F("elif", 2, "if p0 then 1 elif p1 then 2 else 3"),
+     F("catch_second", 2, "do error p0 catch 'zz' 1 catch p1 2 end"),
+     G("lc_product_if", 2, "[[a, b] for a in p0 for b in [1] if p1]", "compr_if_each", ""),
+     G("sc_product_if", 2, "<<[a, b] for a in p0 for b in [1] if p1>>", "compr_if_each", ""),
+     G("lc_parallel_if", 2, "[[a, b] for a in p0 also for b in [1] if p1]", "compr_if_once", ""),
+     G("sc_parallel_if", 2, "<<[a, b] for a in p0 also for b in [1] if p1>>", "compr_if_once", ""),
+     F("numerical_min", 2, "p0 is numerical min_len p1"),
      F("numerical_max", 2, "p0 is not numerical max_len p1"),
      F("alphanumerical_exact", 2, "p0 is alphanumerical exact_len p1"),
      F("deref", 2, "p0[p1]"),
@@ -346,14 +394,17 @@ WordRule(w, a) ==
     [] w \in TypeWords -> "value"                   \* type(x) == '<word>'
     [] OTHER -> "stuck"
 
-Bool2(a, b) == C(a.k = "boolean" /\ b.k = "boolean")      \* the pool's boolean is TRUE
+\* NodeAnd / NodeOr evaluate operand after operand, test each for a boolean, and stop at the
+\* first FALSE / TRUE
+AndRule(a, b) == C(IsBool(a) /\ (IsFalse(a) \/ IsBool(b)))
+OrRule(a, b)  == C(IsBool(a) /\ (IsTrue(a) \/ IsBool(b)))
 
 BinRule(name, a, b) ==
   CASE name \in {"add", "sub", "mul", "div", "mod"} -> C(Arith(name, a, b) # "err")
     [] name \in {"eq", "ne", "ne2", "lt", "le", "gt", "ge", "is", "isnot"} -> "value"
     [] name \in {"in", "notin", "isin", "isnotin"} -> "value"
-    [] name = "and" -> Bool2(a, b)
-    [] name = "or" -> C(a.k = "boolean")                   \* TRUE or _ : short circuit
+    [] name = "and" -> AndRule(a, b)
+    [] name = "or" -> OrRule(a, b)
     [] name \in {"startswith", "startsnotwith", "endswith", "endsnotwith"} -> StrPred(a, b)
     [] name \in {"contains", "containsnot"} -> Contains(a, b)
     [] name \in {"matches", "matchesnot"} -> Matches(a, b)
@@ -377,7 +428,17 @@ Rule(name, w, a, b, c) ==
     [] name = "while" -> C(a.k = "boolean")
     [] name = "error" -> "error"
     [] name = "catch_all" -> "value"
-    [] name \in {"for", "for_keys", "for_values", "for_entries", "for_reuse"} -> C(Loopable(a))
+    [] name = "guard_bool" -> C(IsBool(a))          \* a condition, on whichever pass it is evaluated
+    [] name = "guard_coll" -> C(IsColl(a))          \* an element to destructure, whichever it is
+    [] name = "elif" -> C(IsBool(a) /\ (IsTrue(a) \/ IsBool(b)))
+    [] name = "catch_second" -> C(Equal(a, b))
+    [] name = "compr_if_each" -> ComprIf(a, b)                   \* the condition is met once per pair
+    [] name = "compr_if_once" -> C(Iterable(a) /\ IsBool(b))     \* the second list has an element: one pass at least
+    [] name \in {"for", "for_keys", "for_values", "for_entries", "for_reuse",
+                 "for_continue", "for_break", "for_return"} -> C(Loopable(a))
+    [] name = "spread_set" -> "value"
+    [] name \in {"assign_undefined", "assign_destr_undefined", "require_variable",
+                 "require_expression"} -> "error"
     [] name \in {"for_put", "for_keys_put"} -> MutLoop(a, PutTextKey(a))
     [] name = "for_keys_remove" -> MutLoop(a, Removable(a))
     [] name = "for_append" -> MutLoop(a, Appendable(a))
